@@ -35,6 +35,29 @@ class Skip(flow.Operator):
         return left.extend(flow.Segment(fan, ea), flow.Segment(ft, et))
 
 
+class Par(flow.Operator):
+    """Parallel stateful branches over the same input, merged again by a stateless N:1 worker (the map-reduce shape written
+    against the public composition API: Trunk.use with explicitly extended tails)."""
+
+    def __init__(self, branches):
+        self._branches = branches      # [[name, hp], ...]
+
+    def compose(self, scope):
+        left = scope.expand()
+        kind = flowsym.Snapshot if SNAPSHOT else flowsym.Stateful
+        amerge = flow.Worker(flowsym.Stateless.builder('merge'), len(self._branches), 1)
+        tmerge = amerge.fork()
+        for idx, (name, hp) in enumerate(self._branches):
+            apply = flow.Worker(kind.builder(name, hp=hp + HP_SHIFT), 1, 1)
+            tapply = apply.fork()
+            apply.fork().train(left.train.publisher, left.label.publisher)
+            apply[0].subscribe(left.apply.publisher)
+            amerge[idx].subscribe(apply[0])
+            tapply[0].subscribe(left.train.publisher)
+            tmerge[idx].subscribe(tapply[0])
+        return left.use(apply=left.apply.extend(tail=amerge), train=left.train.extend(tail=tmerge))
+
+
 class Api(flow.Operator):
     """The same operator spec written against the public composition API (flow.Worker / fork / train / Trunk.extend)
     instead of the wrap decorators: it extends ONLY the segments it has an actor for and, when asked, hangs a stateless
@@ -80,12 +103,14 @@ def make_operator(spec):
 
     if spec.get('skip'):
         return Skip(*spec['skip'])
+    if spec.get('par'):
+        return Par(spec['par'])
 
     def cls(actor):
         return (flowsym.Snapshot if SNAPSHOT else flowsym.Stateful) if actor[2] else flowsym.Stateless
 
     if HP_SHIFT:
-        spec = {k: ([v[0], v[1] + HP_SHIFT, v[2]] if isinstance(v, list) else v) for k, v in spec.items()}
+        spec = {k: ([v[0], v[1] + HP_SHIFT, v[2]] if k in ('apply', 'train', 'label') and isinstance(v, list) else v) for k, v in spec.items()}
 
     if spec.get('api'):
         return Api(spec, cls)
